@@ -187,6 +187,7 @@ func fn(name string, params []string, results []string, err bool) Prov {
 // expanded over all Async subsets (and a fallible variant where it matters).
 func F2(thorough bool) []*Program {
 	var bases []*Program
+	var fixed []*Program // programs taken as they are (no Async variants)
 	add := func(p *Program) { p.Family = "F2"; bases = append(bases, p) }
 
 	// Bind: *T1 bound to I0; root needs I0, a sibling needs *T1 as well.
@@ -297,6 +298,39 @@ func F2(thorough bool) []*Program {
 				fn("NewT0", []string{"*T3", "*T4"}, []string{"*T0"}, false),
 			}}}})
 	}
+	// Async written around a Struct expansion (fields consumed by providers of their own)
+	for _, e := range []bool{false, true} {
+		add(&Program{Desc: fmt.Sprintf("async-struct err=%v", e), Types: typeNames(6), Structs: map[string][]string{"S0": {"F0 *T1", "F1 *T2"}}, Decls: []Decl{{
+			Name: "InitP", Request: "*T0", Provs: []Prov{
+				fn("NewT3", nil, []string{"*T3"}, false),
+				fn("NewS0", []string{"*T3"}, []string{"*S0"}, e),
+				{Kind: KStruct, Struct: "*S0", Fields: []string{"F0", "F1"}, FTypes: []string{"*T1", "*T2"}, Async: true},
+				fn("NewT4", []string{"*T1"}, []string{"*T4"}, false),
+				fn("NewT5", []string{"*T2"}, []string{"*T5"}, false),
+				fn("NewT0", []string{"*T4", "*T5"}, []string{"*T0"}, false),
+			}}}})
+	}
+	// the same behind an independent Async chain that occupies the calling goroutine, fields
+	// consumed by the root directly or through providers
+	for _, e := range []bool{false, true} {
+		for _, direct := range []bool{false, true} {
+			rootParams := []string{"*T7", "*T4", "*T5"}
+			provs := []Prov{
+				func() Prov { p := fn("NewT6", nil, []string{"*T6"}, false); p.Async = true; return p }(),
+				func() Prov { p := fn("NewT7", []string{"*T6"}, []string{"*T7"}, false); p.Async = true; return p }(),
+				func() Prov { p := fn("NewS0", nil, []string{"*S0"}, e); p.Async = true; return p }(),
+				{Kind: KStruct, Struct: "*S0", Fields: []string{"F0", "F1"}, FTypes: []string{"*T1", "*T2"}, Async: true},
+			}
+			if direct {
+				rootParams = []string{"*T7", "*T1", "*T2"}
+			} else {
+				provs = append(provs, fn("NewT4", []string{"*T1"}, []string{"*T4"}, false), fn("NewT5", []string{"*T2"}, []string{"*T5"}, false))
+			}
+			provs = append(provs, fn("NewT0", rootParams, []string{"*T0"}, false))
+			fixed = append(fixed, &Program{Family: "F2", Desc: fmt.Sprintf("async-struct behind an async chain err=%v direct=%v", e, direct), Types: typeNames(8), Structs: map[string][]string{"S0": {"F0 *T1", "F1 *T2"}}, Decls: []Decl{{
+				Name: "InitP", Request: "*T0", Provs: provs}}})
+		}
+	}
 	// Struct by value with one field consumed by an intermediate provider
 	add(&Program{Desc: "struct-value", Types: typeNames(3), Structs: map[string][]string{"S0": {"F0 *T1"}}, Decls: []Decl{{
 		Name: "InitP", Request: "*T0", Provs: []Prov{
@@ -393,6 +427,7 @@ func F2(thorough bool) []*Program {
 		}
 		out = append(out, asyncVariants(b, max)...)
 	}
+	out = append(out, fixed...)
 	// Two injectors per file and two files per invocation.
 	mk := func(name string, async uint) Decl {
 		return coreDecl(name, [][]int{{1, 2}, {2}, {}}, async, 0b010, -1, 0)
@@ -926,6 +961,50 @@ func FW() []*Program {
 				out = append(out, &Program{Family: "FW", Types: typeNames(n), Decls: []Decl{coreDecl("InitP", deps, async, errs, -1, 0)},
 					Desc: fmt.Sprintf("wide k=%d base=%d err=%v", k, base, e)})
 			}
+		}
+	}
+	// k input-free Async providers (k = 8..10: more than the scheduler's queue holds at first),
+	// j Async providers each joining two of them, one sync provider, a root needing everything
+	for k := 8; k <= 10; k++ {
+		for j := 2; j <= 4; j += 2 {
+			n := 1 + j + 1 + k
+			deps := make([][]int, n)
+			var async uint
+			// indices: 0 root, 1..j joiners, j+1 sync provider, j+2.. roots
+			for r := 0; r < k; r++ {
+				async |= 1 << uint(j+2+r)
+			}
+			for q := 0; q < j; q++ {
+				deps[1+q] = []int{j + 2 + (2*q)%k, j + 2 + (2*q+1)%k}
+				async |= 1 << uint(1+q)
+			}
+			deps[j+1] = []int{j + 2}
+			for i := 1; i < n; i++ {
+				deps[0] = append(deps[0], i)
+			}
+			out = append(out, &Program{Family: "FW", Types: typeNames(n), Decls: []Decl{coreDecl("InitP", deps, async, 0, -1, 0)},
+				Desc: fmt.Sprintf("wide roots=%d joiners=%d", k, j)})
+		}
+	}
+	// eight input-free Async providers, three Async joiners over overlapping pairs of the first
+	// three, one sync provider below the third, a root needing everything
+	{
+		// 0 root, 1..3 joiners, 4 sync, 5..12 roots
+		deps := make([][]int, 13)
+		deps[1], deps[2], deps[3], deps[4] = []int{5, 6}, []int{5, 7}, []int{6, 7}, []int{7}
+		var async uint
+		for i := 1; i <= 3; i++ {
+			async |= 1 << uint(i)
+		}
+		for i := 5; i <= 12; i++ {
+			async |= 1 << uint(i)
+		}
+		for i := 1; i < 13; i++ {
+			deps[0] = append(deps[0], i)
+		}
+		for _, rev := range []uint{0, 1} {
+			out = append(out, &Program{Family: "FW", Types: typeNames(13), Decls: []Decl{coreDecl("InitP", deps, async, 0, -1, rev)},
+				Desc: fmt.Sprintf("wide roots=8 overlapping joiners rev=%d", rev)})
 		}
 	}
 	return out
